@@ -23,6 +23,9 @@ CLAIMED = {
  'C08': dict(design='4/C08', technique='TLA+ model of the documented order and of an implementation-shaped hash function; TLC checks order axioms and hash/equality coherence on all pairs and triples of atoms; vectors for 15 operations replayed on the library',
    text='TLC proves on the specification, for all pairs and triples of ~48 atoms covering every number representation, string kind, arrays and objects with different insertion order: trichotomy, antisymmetry, transitivity, uniqueness of the stable sort, and that values that are equal fall in the same class of a model of jaq-json`s Hash impl; every pair x 15 lookup/sort/merge operations and every triple x 4 sorts is replayed on the real code.',
    note='NaN and integers beyond 2^53 vs floats are excluded by the property itself; floats restricted to exactly representable ones; hash model is a hand transcription of impl Hash for Num/Val'),
+ 'C09': dict(design='4/C09', technique='TLA+ BigNat (school arithmetic on digit sequences) + operator tables of the manual in JaqValues; TLC enumerates boundary operand pairs, kind pairs and integer consumers; vectors replayed on the library',
+   text='Expected results for integer arithmetic at every machine/big boundary are computed by TLC with an explicit arbitrary-precision arithmetic written in TLA+; the manual`s operator rules for all kind pairs and the representation independence of 16 integer consumers are enumerated exhaustively over the suites and replayed on the real code.',
+   note='general IEEE-754 results are outside the specification (only exact small dyadic values, signed zero, NaN, infinities); same trusted base as C01'),
 }
 
 checks = []
